@@ -135,8 +135,16 @@ func (e *Engine) inModule(fn *ssa.Function) bool {
 		}
 		return false
 	}
-	_, ok := e.Pkgs[fn.Pkg.Pkg.Path()]
-	return ok
+	if _, ok := e.Pkgs[fn.Pkg.Pkg.Path()]; ok {
+		return true
+	}
+	// any package of the module under verification
+	for _, p := range e.Pkgs {
+		if p.Module != nil && (fn.Pkg.Pkg.Path() == p.Module.Path || strings.HasPrefix(fn.Pkg.Pkg.Path(), p.Module.Path+"/")) {
+			return true
+		}
+	}
+	return false
 }
 
 func (f *frame) callFunc(fn *ssa.Function, bindings []*Val, args []*Val, res ssa.Value, pos token.Pos) (*Val, error) {
@@ -455,7 +463,7 @@ func (f *frame) child(fn *ssa.Function, pure bool) *frame {
 	}
 	return &frame{e: f.e, c: f.c, fn: fn, pkg: f.pkg, vals: map[ssa.Value]*Val{}, pure: pure || f.pure, bound: f.bound,
 		st: f.st, reach: f.reach, oldSt: f.oldSt, depth: f.depth + 1, prefix: fmt.Sprintf("%s#%d!", fn.Name(), id), inline: f.inline,
-		triggers: f.triggers, ranges: f.rangesEnv(), bounds: copyBounds(f.bounds), symc: f.symCells(), topFC: f.topContract()}
+		triggers: f.triggers, ranges: f.rangesEnv(), bounds: copyBounds(f.bounds), symc: f.symCells(), topFC: f.topContract(), outerOpen: f.openLoopPreds()}
 }
 
 // mergedResult combines the return values of a finished frame.
